@@ -248,6 +248,13 @@ pub fn encode(ds: &[GElem], ts: Ts, mode: LenMode) -> Encoded {
 pub struct OddOpts {
     pub paths: std::collections::HashSet<String>,
     pub trailing_pad: bool,
+    /// explicit-length items and sequences declare the *sum of the declared lengths* of their
+    /// content when exactly one uncounted pad byte lies underneath (declared = actual - 1, an odd
+    /// item/sequence length that the "next even" strategy rounds up to the actual size)
+    pub decl_sum: bool,
+    /// pixel fragments of odd size keep their odd declared length (pad byte follows with
+    /// `trailing_pad`)
+    pub frag_odd: bool,
 }
 
 pub fn encode_odd(ds: &[GElem], ts: Ts, mode: LenMode, odd: &OddOpts) -> Encoded {
@@ -259,8 +266,10 @@ pub fn encode_odd(ds: &[GElem], ts: Ts, mode: LenMode, odd: &OddOpts) -> Encoded
     e
 }
 
-fn enc_ds(ds: &[GElem], ts: Ts, mode: LenMode, e: &mut Encoded, path: &str, odd: &OddOpts) {
+/// Returns the number of pad bytes written that no declared length accounts for.
+fn enc_ds(ds: &[GElem], ts: Ts, mode: LenMode, e: &mut Encoded, path: &str, odd: &OddOpts) -> usize {
     let big = ts.big();
+    let mut uncounted = 0usize;
     for el in ds {
         let p = format!("{}{:04X}{:04X}", path, el.tag.0, el.tag.1);
         match &el.val {
@@ -271,6 +280,7 @@ fn enc_ds(ds: &[GElem], ts: Ts, mode: LenMode, e: &mut Encoded, path: &str, odd:
                     LenMode::AsMarked => s.explicit,
                 };
                 // encode the content first
+                let mut seq_unc = 0usize;
                 let mut inner = Encoded {
                     bytes: Vec::new(),
                     pos: Vec::new(),
@@ -285,10 +295,12 @@ fn enc_ds(ds: &[GElem], ts: Ts, mode: LenMode, e: &mut Encoded, path: &str, odd:
                         bytes: Vec::new(),
                         pos: Vec::new(),
                     };
-                    enc_ds(&it.elems, ts, mode, &mut body, &format!("{}[{}].", p, i), odd);
+                    let unc = enc_ds(&it.elems, ts, mode, &mut body, &format!("{}[{}].", p, i), odd);
+                    seq_unc += unc;
                     let base = inner.bytes.len() + 8;
                     if it_explicit {
-                        item_tag(&mut inner.bytes, 0xE000, body.bytes.len() as u32, big);
+                        let adj = if odd.decl_sum && unc == 1 { 1 } else { 0 };
+                        item_tag(&mut inner.bytes, 0xE000, (body.bytes.len() - adj) as u32, big);
                         inner.bytes.extend_from_slice(&body.bytes);
                     } else {
                         item_tag(&mut inner.bytes, 0xE000, 0xFFFF_FFFF, big);
@@ -302,8 +314,9 @@ fn enc_ds(ds: &[GElem], ts: Ts, mode: LenMode, e: &mut Encoded, path: &str, odd:
                     }
                 }
                 let header_at = e.bytes.len();
+                uncounted += seq_unc;
                 let len = if explicit {
-                    inner.bytes.len() as u32
+                    (inner.bytes.len() - if odd.decl_sum && seq_unc == 1 { 1 } else { 0 }) as u32
                 } else {
                     0xFFFF_FFFF
                 };
@@ -347,6 +360,15 @@ fn enc_ds(ds: &[GElem], ts: Ts, mode: LenMode, e: &mut Encoded, path: &str, odd:
                 }
                 for f in frags {
                     let mut f = f.clone();
+                    if f.len() % 2 == 1 && odd.frag_odd {
+                        item_tag(&mut e.bytes, 0xE000, f.len() as u32, big);
+                        e.bytes.extend_from_slice(&f);
+                        if odd.trailing_pad {
+                            e.bytes.push(0);
+                            uncounted += 1;
+                        }
+                        continue;
+                    }
                     if f.len() % 2 == 1 {
                         f.push(0);
                     }
@@ -374,6 +396,7 @@ fn enc_ds(ds: &[GElem], ts: Ts, mode: LenMode, e: &mut Encoded, path: &str, odd:
                     e.bytes.extend_from_slice(&raw);
                     if odd.trailing_pad {
                         e.bytes.push(pad_byte(el.vr));
+                        uncounted += 1;
                     }
                     continue;
                 }
@@ -394,4 +417,5 @@ fn enc_ds(ds: &[GElem], ts: Ts, mode: LenMode, e: &mut Encoded, path: &str, odd:
             }
         }
     }
+    uncounted
 }
